@@ -203,6 +203,14 @@ class CliSampler:
                 if r["rc"] == 0:
                     ps = self.parts_of(d + "/out", "a")
                     self.record("cli:split", ps, pw, exp, hist)
+                    # the parts as INPUT of another split (the chain is read from its first part; an entry that straddles
+                    # a boundary of the input parts must come out whole: seeded C14-6 = C04-6)
+                    if len(ps) > 1:
+                        os.makedirs(self.sb.path(d, "out2"), exist_ok=True)
+                        a2 = ["split", ps[0], "--max-size", str(rnd.choice([90, 150, 300, 5000])), "--out-dir", d + "/out2"] + ow
+                        r2 = self.pna(a2)
+                        if r2["rc"] == 0:
+                            self.record("cli:split-of-parts", self.parts_of(d + "/out2", "a"), pw, exp, hist + [cmdtext(a2)])
                     # and back together
                     a = ["concat", d + "/joined.pna", ps[0]] + ow
                     r = self.pna(a); hist.append(cmdtext(a))
